@@ -129,8 +129,10 @@ def gen_case(ch):
             n = 500 + ch.draw(2500, "n_deep")
             h = 1 + ch.draw(6, "cols_deep")
         base, kind = _signal(ch, rng, n, h)
-        dt = ch.weighted([8, 2, 1, 1], "dtype")
-        if dt == 1:
+        dt = ch.weighted([8, 2, 1, 1, 1], "dtype")
+        if dt == 4:
+            base = base.astype(np.longdouble)  # extended precision input (dt < 2 below is False: no NaN planted)
+        elif dt == 1:
             base = base.astype(np.float32)
         elif dt == 2:
             base = np.round(base * 100).astype(np.int16)
